@@ -61,7 +61,7 @@ func TestVerifReplay(t *testing.T) {
 	if res == "REPLAY-PASSED" {
 		leaked := 0
 		for i := 0; i < 50; i++ {
-			leaked = runtime.NumGoroutine() - before - 1
+			leaked = runtime.NumGoroutine() - before
 			if leaked <= 0 {
 				break
 			}
